@@ -585,6 +585,22 @@ def r6_tails(text, notes):
             notes.add('R6', '`%s%s..` lowered to %s(%s, <closure verbatim>)' % (recv, ' '.join(text[m.start():m.start()].split()), helper, recv))
             changed = True
             break
+    # `X.enumerate().filter_map(C)` (X any iterator chain) -> `vf_enum_filter_map(X.collect::<Vec<_>>(), C).into_iter()`:
+    # the items are collected first (the adapters before `enumerate` keep their native specifications), the Some-values of
+    # C(index, item) come back in order as an iterator again, so whatever follows (`.collect()`, `.take(n).collect()`) stays
+    while True:
+        mask = mask_text(text)
+        m = re.search(r'\.\s*enumerate\s*\(\s*\)\s*\.\s*filter_map\s*\(', mask)
+        if not m:
+            break
+        par = m.end() - 1
+        close = match_close(mask, par)
+        rs = _receiver_start(mask, m.start())
+        recv = text[rs:m.start()].strip()
+        c = text[par + 1:close].strip()
+        text = text[:rs] + ('{ let efm_src__ = %s.collect::<Vec<_>>(); let ghost efm_in__ = efm_src__@;\n'
+                            '        let efm_f__ = %s;\n        let efm_out__ = vf_enum_filter_map(efm_src__, efm_f__);\n        efm_out__ }.into_iter()') % (recv, c) + text[close + 1:]
+        notes.add('R6', '`<iter>.enumerate().filter_map(..)` lowered to vf_enum_filter_map(<iter>.collect(), <closure verbatim>).into_iter()')
     # `(A..B).map(C).collect::<Vec<_>>()` -> `vf_range_map(A, B, C)`
     while True:
         mask = mask_text(text)
@@ -926,6 +942,16 @@ def r6_db_scans(text, notes):
             if mcoll:
                 c3 = text[mpar + 1:mclose].strip()
                 rep = '{ let scan__m = %s;\n        vf_vec_filter_map(scan__m, %s) }' % (rep, c3)
+                end = mclose + 1 + mcoll.end()
+        # a following `.map_while(C).collect()` keeps the Some-values of the longest prefix on which C yields Some
+        mmw = re.match(r'\s*\.\s*map_while\s*\(', mask[end:]) if not mm and not mfm else None
+        if mmw:
+            mpar = end + mmw.end() - 1
+            mclose = match_close(mask, mpar)
+            mcoll = re.match(r'\s*\.\s*collect\s*(::\s*<\s*Vec\s*<\s*_\s*>\s*>)?\s*\(\s*\)', mask[mclose + 1:])
+            if mcoll:
+                c3 = text[mpar + 1:mclose].strip()
+                rep = '{ let scan__m = %s;\n        vf_vec_map_while(scan__m, %s) }' % (rep, c3)
                 end = mclose + 1 + mcoll.end()
         text = text[:rs] + rep + text[end:]
         notes.add('R6', 'RocksDB scan `%s.take_while(..)%s` lowered to %s' % (' '.join(recv.split()), '.filter(..)' if mf else '', 'vf_db_tw_filter' if mf else 'vf_db_tw'))
